@@ -491,6 +491,8 @@ def run_check(pid, tier, seed, progs, mode, sizes, ncore=0, core_total=0, assump
     srow = next((x for x in done if x["p"] == si), None)
     cov = {
         "states": ex.states, "transitions": ex.generated,
+        # executions that completed without UB and were checked step by step against the facts recorded from the real cppcheck
+        "traces_validated_against_impl": len(done),
         "evaluations": len(ex.rows), "distinct_nontrivial": len(exercised),
         "rule": ("one evaluation = one execution (program, input vector) explored by TLC; distinct non-trivial = distinct (program, AST node) "
                  "pairs that carry at least one fact and were evaluated by at least one completed UB-free execution") if mode != "flag" else
